@@ -21,7 +21,7 @@ TRANSLATOR_UNITS = []
 SHARD = 20
 RULE = ("designs from a seeded generator: module trees of depth <= 3 (some modules empty), 3-10 signals whose names are drawn "
         "from a small pool so that they clash with each other, with port names and with submodule names (private '' names and, "
-        "at a low rate, '$'-suffixed names that collide with generated ones included), widths 0-8, every signal owned by one "
+        "at a low rate, '$'-suffixed names that collide with generated ones (the retry loop of _add_name) included), widths 0-8, every signal owned by one "
         "(module, domain) and used in other modules (routed through intermediate modules), partial (sliced) targets, all operators, "
         "If/Switch, Print/Assert, several clock domains (negedge, async reset, reset-less, local), foreign instances with "
         "i/o/io ports, parameters (int, negative, >= 2^31, str with escapes, float, Const) and attributes, I/O buffers on IOPorts, "
@@ -653,15 +653,13 @@ def nontrivial(case, obs):
 
 
 def known_finding(case, obs, model):
-    """the conversion of a legal design dies in a bare assertion because a generated name collides with a user name:
-    S3 in _ir._add_name (name$<n>); second class in rtlil.emit_signal_wires (port$<cell>$<bit> of a private signal)"""
+    """the conversion of a legal design dies in a bare assertion of rtlil.emit_signal_wires because the generated port
+    name port$<cell>$<bit> of a private signal collides with a signal the user named so"""
     if case["kind"] == "design" and obs == [-1, EXC["AssertionError"]]:
         st, _t, _d, _e, err = analyse(case["d"])
-        if st == "raise" and err[0] == "AssertionError":
-            if err[1] == "_add_name":
-                return "S3-add-name-assert"
-            if err[1] == "emit_signal_wires" and any(s["n"].startswith("port$") for s in case["d"]["sigs"]):
-                return "C07-port-name-collision"
+        if st == "raise" and err[0] == "AssertionError" and err[1] == "emit_signal_wires" \
+                and any(s["n"].startswith("port$") for s in case["d"]["sigs"]):
+            return "C07-port-name-collision"
     return None
 
 
@@ -672,7 +670,7 @@ def explain(case):
                 "(module index, failing clause number) pairs, clause numbers in the order of Rtlil.module_checks")
     if case["kind"] == "neg":
         return "corrupted document that the validator must reject ([0])"
-    return "_ir._add_name applied in sequence; [0] = assertion failure"
+    return "_ir._add_name applied in sequence to a set; per sequence 1, then the character codes of each returned name (-1 ends a name), -2 ends the sequence"
 
 
 def shrink(case, obs, model):
@@ -692,7 +690,7 @@ def extra(tier, seed, findings):
                         f"raised instead of emitting a document: {STATS['convert_failed']} (each reported as a mismatch)"),
         "samples": STATS["samples"] + [{"negative_corpus_case": HAND_NEG[6][0], "rtlil": HAND_NEG[6][1], "expected_verdict": "reject"},
                                         {"add_name_sequence": {"reserved": ["o"], "wanted": ["a", "a$3", "a"]},
-                                         "implementation": "AssertionError", "model": "None"}],
+                                         "implementation": ["a", "a$3", "a$4"], "model": ["a", "a$3", "a$4"]}],
         "generator_skipped_illegal_designs": GEN_STATS.get("skipped_illegal", 0),
     }
     return [], cov
@@ -1266,7 +1264,8 @@ def gen_cases(tier, seed):
     cases = []
     for D in fixed_designs():
         cases.append({"kind": "design", "d": D})
-    # S3 sweep: signals a, a$k, a in one module (k = the size of the name set when the third is added)
+    # former S3 (fixed in cb9d97a): signals a, a$k, a in one module (k = the size of the name set when the third is
+    # added, k = 3 here, used to trip an assertion); kept so that a regression is seen
     for k in range(1, 6):
         S = lambda n, w: {"n": n, "w": w, "s": False, "i": 0}
         cases.append({"kind": "design", "d": {
